@@ -1,9 +1,11 @@
 //! A font compiler with aspirations of being fast and safe.
 
 mod error;
-#[cfg(not(feature = "rayon"))]
+#[cfg(all(not(feature = "rayon"), not(fontc_verif)))]
 mod norayon;
 mod timing;
+#[cfg(fontc_verif)]
+pub mod verif;
 mod version;
 pub mod work;
 mod workload;
@@ -289,6 +291,13 @@ pub fn write_font_file(options: &Options, be_context: &BeContext) -> Result<(), 
     match ir_font_path {
         Some(ref ir_path) if ir_path != output_file => {
             // IR enabled with custom output path: move from IR location
+            #[cfg(fontc_verif)]
+            if let Some(source) = fontdrasil::verif::io_step("rename-font", output_file) {
+                return Err(Error::FileIo {
+                    path: output_file.clone(),
+                    source,
+                });
+            }
             fs::rename(ir_path, output_file).map_err(|source| Error::FileIo {
                 path: output_file.clone(),
                 source,
@@ -296,6 +305,13 @@ pub fn write_font_file(options: &Options, be_context: &BeContext) -> Result<(), 
         }
         None => {
             // No IR: write from memory
+            #[cfg(fontc_verif)]
+            if let Some(source) = fontdrasil::verif::io_step("write-font", output_file) {
+                return Err(Error::FileIo {
+                    path: output_file.clone(),
+                    source,
+                });
+            }
             fs::write(output_file, be_context.font.get().get()).map_err(|source| {
                 Error::FileIo {
                     path: output_file.clone(),
